@@ -291,29 +291,33 @@ def rs_guards(g):
                                 for (a, b, c, d) in g)
 
 
+def rb(x):
+    return "true" if x else "false"
+
+
 def add(fam, name, K, call, unwind, accept=True, tier="quick"):
     assert fam in FAMILIES, fam
     full = fam + "__" + name
     assert full not in _names, full
     _names.add(full)
-    HARNESSES.append(dict(name=full, family=fam, K=K, unwind=unwind, call=call,
+    HARNESSES.append(dict(name=full, family=fam, K=max(K, 1), unwind=unwind, call=call,
                           accept=accept, tier=tier))
 
 
-def unwind_for(n, pins=()):
-    return max(10, n + 2, len(pins) + 2)
+def unwind_for(n, npins=0):
+    return max(10, n + 2, npins + 2)
 
 
-def add_rt(fam, name, fn_args, canon, tier="quick", slack=1):
-    """constructive round trip: call = checks::<fn>(<args>, PINS, n, b)"""
+def add_rt(fam, name, ty, ctx, shape, canon, tier="quick", slack=1):
+    """constructive round trip: checks::c05_rt::<ty>(ctx, shape, PINS, n, b)"""
     n = len(canon)
     pins = pins_of(canon)
-    call = "checks::%s, %s, %d, b)" % (fn_args, rs_pins(pins), n)
-    add(fam, name, n + slack, call, unwind_for(n, pins), True, tier)
+    call = "checks::c05_rt::<%s>(%s, %s, %s, %d, b)" % (ty, ctx, shape, rs_pins(pins), n)
+    add(fam, name, n + slack, call, unwind_for(n, len(pins)), True, tier)
 
 
-def add_dec(fam, name, dec, wire, canon=None, guards=(), lax=False, accept=None, tier="quick"):
-    """template-driven decode check"""
+def add_dec(fam, name, ty, ctx, wire, canon=None, guards=(), lax=False, accept=None, tier="quick"):
+    """template-driven decode check: checks::c06_decode::<ty>(ctx, TPL, GUARDS, canon, lax, b)"""
     K = len(wire)
     assert K <= 64, (name, K)
     if canon is None:
@@ -323,11 +327,24 @@ def add_dec(fam, name, dec, wire, canon=None, guards=(), lax=False, accept=None,
         pins = pins_of(canon)
         npins = len(pins)
         c = "Some((%d, %s))" % (len(canon), rs_pins(pins))
-    call = "checks::c06_decode(Dec::%s, %s, %s, %s, %s, b)" % (
-        dec, rs_tpl(wire), rs_guards(guards), c, "true" if lax else "false")
+    call = "checks::c06_decode::<%s>(%s, %s, %s, %s, %s, b)" % (
+        ty, ctx, rs_tpl(wire), rs_guards(guards), c, rb(lax))
     if accept is None:
         accept = canon is not None
-    add(fam, name, K, call, unwind_for(K, [0] * npins), accept, tier)
+    add(fam, name, K, call, unwind_for(K, npins), accept, tier)
+
+
+def add_trunc(fam, name, ty, ctx, wire, accept=True, tier="quick"):
+    K = len(wire)
+    assert K <= 64
+    call = "checks::c06_trunc::<%s>(%s, %s, b)" % (ty, ctx, rs_tpl(wire))
+    add(fam, name, K, call, unwind_for(K), accept, tier)
+
+
+def add_free(fam, name, ty, ctx, n, trunc=True, accept=True, tier="quick", unwind=10):
+    K = n + (1 if trunc else 0)
+    call = "checks::c06_free::<%s>(%s, %d, %s, b)" % (ty, ctx, n, rb(trunc))
+    add(fam, name, K, call, unwind, accept, tier)
 
 
 L_Q = (0, 1, 2)
@@ -342,35 +359,85 @@ def fl(fss):
     return fss[0].lower()
 
 
+def opt(w):
+    return "None" if w is None else "Some(%d)" % w
+
+
+def leaf(fss, p):
+    """(rust type, ctx, shape, canonical template) of the leaf struct behind payload shape p"""
+    k = p[0]
+    body = payload(fss, p, A)[1]
+    if k == "Eof":
+        return "EndOfFile", fs(fss), opt(p[1]), body[1:]
+    if k == "Fin":
+        return "Finished", "()", "(&[%s], %s, %s)" % (
+            ", ".join("(%d, %d, %d)" % r for r in p[1]), rb(p[2]), opt(p[3])), body[1:]
+    if k == "Ack":
+        return "PositiveAcknowledgePDU", "()", "()", body[1:]
+    if k == "Meta":
+        return "MetadataPDU", fs(fss), "(%d, %d, &[%s])" % (
+            p[1], p[2], ", ".join(tlv_rs(o) for o in p[3])), body[1:]
+    if k == "Nak":
+        return "NegativeAcknowledgmentPDU", fs(fss), "%d" % p[1], body[1:]
+    if k == "Prompt":
+        return "PromptPDU", "()", "()", body[1:]
+    if k == "KeepAlive":
+        return "KeepAlivePDU", fs(fss), "()", body[1:]
+    if k == "Unseg":
+        return "UnsegmentedFileData", fs(fss), "%d" % p[1], body
+    if k == "Seg":
+        return "SegmentedFileData", fs(fss), "(%d, %d, %d)" % (p[1], p[2], p[3]), body
+    raise ValueError(p)
+
+
+def add_leaf_rt(fam, fss, p, tier="quick", suffix=True):
+    ty, ctx, shape, canon = leaf(fss, p)
+    if len(canon) > 320:
+        return
+    add_rt(fam, pl_name(p) + ("_" + fl(fss) if suffix else ""), ty, ctx, shape, canon, tier)
+
+
+# leaf struct of a user operation kind: (type, shape)
+UO_LEAF = {
+    "OrigTx": "OriginatingTransactionIDMessage", "RespStatus": "RemoteStatusReportResponse",
+    "RespResume": "RemoteResumeResponse", "RespSuspend": "RemoteSuspendResponse",
+    "ReqSuspend": "RemoteSuspendRequest", "ReqResume": "RemoteResumeRequest",
+    "ReqStatus": "RemoteStatusReportRequest", "ProxyPut": "ProxyPutRequest",
+    "RespProxyPut": "ProxyPutResponse", "RespDirList": "DirectoryListingResponse",
+    "ReqDirList": "DirectoryListingRequest", "ProxySegCtrl": "ProxySegmentationControl",
+    "SfoRequest": "SFORequest", "SfoReport": "SFOReport",
+}
+
+
+def uo_shape(u):
+    if len(u) == 1:
+        return "()"
+    if len(u) == 2:
+        return "%d" % u[1]
+    return "(%s)" % ", ".join(str(x) for x in u[1:])
+
+
 # ---------------------------------------------------------------------------------------------- C05
 def gen_c05():
     family("c05_fixed", "C05", "complete", "",
-           "fixed-layout values: VariableID, TransmissionMode, FaultHandlerOverride, "
-           "SegmentRequestForm, EOF, ACK, Prompt, KeepAlive, NAK (0..2 requests; 3,4 thorough), "
-           "EntityID/FaultHandlerOverride TLVs. One harness per width/flag shape; all value "
-           "fields symbolic full width")
+           "fixed-layout leaf codecs: VariableID, TransmissionMode, FaultHandlerOverride, "
+           "SegmentRequestForm, EndOfFile, PositiveAcknowledgePDU, PromptPDU, KeepAlivePDU, "
+           "NegativeAcknowledgmentPDU (0..2 requests; 3,4 thorough). One harness per width / flag "
+           "shape; all value fields symbolic, full width")
+    F = "c05_fixed"
     for w in WIDTHS:
-        add_rt("c05_fixed", "varid_w%d" % w, "c05_varid(%d" % w, varid_enc(w))
-        add_rt("c05_fixed", "tlv_eid_w%d" % w, "c05_tlv(Tlv::Eid(%d), false" % w, tlv(("Eid", w)))
-    add_rt("c05_fixed", "tmode", "c05_tmode(", [S])
-    HARNESSES[-1]["call"] = HARNESSES[-1]["call"].replace("c05_tmode(, ", "c05_tmode(")
-    add_rt("c05_fixed", "fho", "c05_tlv(Tlv::Fho, true", [S])
-    add_rt("c05_fixed", "tlv_fho", "c05_tlv(Tlv::Fho, false", tlv(("Fho",)))
+        add_rt(F, "varid_w%d" % w, "VariableID", "()", "%d" % w, varid_enc(w))
+    add_rt(F, "tmode", "TransmissionMode", "()", "()", [S])
+    add_rt(F, "fho", "FaultHandlerOverride", "()", "()", [S])
     for fss in FSS:
-        add_rt("c05_fixed", "segreq_" + fl(fss), "c05_segreq(%s" % fs(fss), [S] * (2 * fsz(fss)))
-        pls = [("Eof", None)] + [("Eof", w) for w in WIDTHS] + [("KeepAlive",)] \
-            + [("Nak", n) for n in (0, 1, 2)]
-        for p in pls:
-            add_rt("c05_fixed", pl_name(p) + "_" + fl(fss),
-                   "c05_payload(%s, %s" % (fs(fss), pl_rs(p)), payload(fss, p)[1])
+        add_rt(F, "segreq_" + fl(fss), "SegmentRequestForm", fs(fss), "()", [S] * (2 * fsz(fss)))
+        for p in [("Eof", None)] + [("Eof", w) for w in WIDTHS] + [("KeepAlive",)] \
+                + [("Nak", n) for n in (0, 1, 2)]:
+            add_leaf_rt(F, fss, p)
         for n in (3, 4):
-            p = ("Nak", n)
-            if len(payload(fss, p)[1]) <= 64:
-                add_rt("c05_fixed", pl_name(p) + "_" + fl(fss),
-                       "c05_payload(%s, %s" % (fs(fss), pl_rs(p)), payload(fss, p)[1], "thorough")
+            add_leaf_rt(F, fss, ("Nak", n), "thorough")
     for p in (("Ack",), ("Prompt",)):
-        add_rt("c05_fixed", pl_name(p), "c05_payload(Fss::Small, %s" % pl_rs(p),
-               payload("Small", p)[1])
+        add_leaf_rt(F, "Small", p, suffix=False)
 
     family("c05_header", "C05", "complete", "",
            "PDUHeader for every (entity width, sequence width, segmentation control, segment "
@@ -385,46 +452,32 @@ def gen_c05():
                     t[1] = S
                     t[2] = S
                     tier = "quick" if (segctl, seg) in ((0, 0), (1, 1)) or we == ws else "thorough"
-                    add_rt("c05_header", "e%d_s%d_c%d_m%d" % (we, ws, segctl, seg),
-                           "c05_header(%d, %d, %s, %s" % (we, ws, "true" if segctl else "false",
-                                                         "true" if seg else "false"), t, tier, 0)
+                    add_rt("c05_header", "e%d_s%d_c%d_m%d" % (we, ws, segctl, seg), "PDUHeader",
+                           "()", "(%d, %d, %s, %s)" % (we, ws, rb(segctl), rb(seg)), t, tier, 0)
 
     family("c05_var", "C05", "bounded",
-           "string / TLV body / list lengths in {0,1,2} (quick), plus 3, 255-octet bodies and "
+           "string / body / list lengths in {0,1,2} (quick), plus 3, 255-octet bodies and "
            "63-octet segment metadata (thorough); file names ASCII",
-           "FlowLabel, MessageToUser, FileStoreRequest/Response (standalone and as TLV), "
-           "Finished, Metadata, FileData (both kinds)")
+           "variable-length leaf codecs: FlowLabel, MessageToUser, FileStoreRequest, "
+           "FileStoreResponse, Finished, MetadataPDU, UnsegmentedFileData, SegmentedFileData")
+    V = "c05_var"
     for n in (0, 1, 2, 3, 255):
         tier = "quick" if n in L_Q else "thorough"
-        for k in ("Flow", "Msg"):
-            add_rt("c05_var", "tlv_%s%d" % (k.lower(), n), "c05_tlv(Tlv::%s(%d), false" % (k, n),
-                   tlv((k, n)), tier)
-            add_rt("c05_var", "%s%d" % (k.lower(), n), "c05_tlv(Tlv::%s(%d), true" % (k, n),
-                   tlv((k, n))[1:], tier)
+        add_rt(V, "flow%d" % n, "FlowLabel", "()", "%d" % n, lv(n), tier)
+        add_rt(V, "msg%d" % n, "MessageToUser", "()", "%d" % n, lv(n), tier)
     for l1 in (0, 1, 2, 3):
         for l2 in (0, 1, 2, 3):
             tier = "quick" if l1 in L_Q and l2 in L_Q else "thorough"
-            add_rt("c05_var", "tlv_fsreq%d%d" % (l1, l2),
-                   "c05_tlv(Tlv::FsReq(%d, %d), false" % (l1, l2), tlv(("FsReq", l1, l2)), tier)
-            if l1 == l2:
-                add_rt("c05_var", "fsreq%d%d" % (l1, l2),
-                       "c05_tlv(Tlv::FsReq(%d, %d), true" % (l1, l2), tlv(("FsReq", l1, l2))[1:], tier)
+            add_rt(V, "fsreq%d%d" % (l1, l2), "FileStoreRequest", "()", "(%d, %d)" % (l1, l2),
+                   fsreq(l1, l2), tier)
             for lm in (0, 1, 2, 3):
                 tier2 = "quick" if tier == "quick" and lm in L_Q else "thorough"
                 if 3 in (l1, l2, lm) and not (l1 == l2 == lm or (l1, l2, lm) in ((3, 0, 1), (0, 3, 2), (1, 2, 3))):
                     continue
-                add_rt("c05_var", "tlv_fsresp%d%d%d" % (l1, l2, lm),
-                       "c05_tlv(Tlv::FsResp(%d, %d, %d), false" % (l1, l2, lm),
-                       tlv(("FsResp", l1, l2, lm)), tier2)
-                if l1 == l2 == lm:
-                    add_rt("c05_var", "fsresp%d%d%d" % (l1, l2, lm),
-                           "c05_tlv(Tlv::FsResp(%d, %d, %d), true" % (l1, l2, lm),
-                           tlv(("FsResp", l1, l2, lm))[1:], tier2)
-    add_rt("c05_var", "tlv_fsreq_255_0", "c05_tlv(Tlv::FsReq(255, 0), false", tlv(("FsReq", 255, 0)),
-           "thorough")
-    add_rt("c05_var", "tlv_fsresp_0_0_255", "c05_tlv(Tlv::FsResp(0, 0, 255), false",
-           tlv(("FsResp", 0, 0, 255)), "thorough")
-    # Finished
+                add_rt(V, "fsresp%d%d%d" % (l1, l2, lm), "FileStoreResponse", "()",
+                       "(%d, %d, %d)" % (l1, l2, lm), fsresp(l1, l2, lm), tier2)
+    add_rt(V, "fsreq_255_0", "FileStoreRequest", "()", "(255, 0)", fsreq(255, 0), "thorough")
+    add_rt(V, "fsresp_0_0_255", "FileStoreResponse", "()", "(0, 0, 255)", fsresp(0, 0, 255), "thorough")
     rlists_q = [(), ((1, 0, 2),), ((0, 2, 1),), ((2, 2, 2),), ((1, 1, 0), (0, 1, 1)),
                 ((2, 0, 1), (1, 2, 0))]
     rlists_t = [((3, 3, 3),), ((0, 0, 0), (1, 1, 1), (2, 2, 2)), ((3, 0, 1), (0, 3, 0), (1, 0, 3))]
@@ -432,12 +485,10 @@ def gen_c05():
     for rl in rlists_q + rlists_t:
         for (err, fw) in conds:
             p = ("Fin", rl, err, fw)
-            canon = payload("Small", p, A)[1]
-            if len(canon) > 64:
+            if len(leaf("Small", p)[3]) > 64:
                 continue
             tier = "quick" if rl in rlists_q and (fw in (None, 2) or len(rl) <= 1) else "thorough"
-            add_rt("c05_var", pl_name(p), "c05_payload(Fss::Small, %s" % pl_rs(p), canon, tier)
-    # Metadata
+            add_leaf_rt(V, "Small", p, tier, suffix=False)
     opts_q = [(), (("Msg", 1),), (("Fho",),), (("Flow", 2),), (("Eid", 4),), (("FsReq", 1, 1),),
               (("FsResp", 1, 0, 1),), (("Msg", 2), ("Fho",)), (("Flow", 1), ("Eid", 2))]
     opts_t = [(("Msg", 0), ("Flow", 0), ("Eid", 1)), (("FsReq", 2, 0), ("FsResp", 0, 2, 2)),
@@ -447,110 +498,139 @@ def gen_c05():
             for o in opts_q + opts_t:
                 if (ls, ld) != (1, 2) and o != ():
                     continue
-                p = ("Meta", ls, ld, o)
                 tier = "quick" if o in opts_q and 3 not in (ls, ld) else "thorough"
-                add_rt("c05_var", pl_name(p) + "_" + fl(fss),
-                       "c05_payload(%s, %s" % (fs(fss), pl_rs(p)), payload(fss, p, A)[1], tier)
+                add_leaf_rt(V, fss, ("Meta", ls, ld, o), tier)
         for n in (0, 1, 2, 3):
-            p = ("Unseg", n)
-            add_rt("c05_var", pl_name(p) + "_" + fl(fss),
-                   "c05_payload(%s, %s" % (fs(fss), pl_rs(p)), payload(fss, p)[1],
-                   "quick" if n in L_Q else "thorough")
+            add_leaf_rt(V, fss, ("Unseg", n), "quick" if n in L_Q else "thorough")
         for r in (0, 1, 2, 3):
             for (m, n) in ((0, 1), (1, 1), (2, 1), (1, 0), (2, 2), (3, 3), (63, 1)):
                 if (m, n) in ((1, 0), (2, 2)) and r != 3:
                     continue
-                p = ("Seg", m, n, r)
-                tier = "quick" if max(m, n) <= 2 else "thorough"
-                if m == 63 and (r != 1):
+                if m == 63 and r != 1:
                     continue
-                add_rt("c05_var", pl_name(p) + "_" + fl(fss),
-                       "c05_payload(%s, %s" % (fs(fss), pl_rs(p)), payload(fss, p)[1], tier)
+                add_leaf_rt(V, fss, ("Seg", m, n, r), "quick" if max(m, n) <= 2 else "thorough")
 
     family("c05_userops", "C05", "bounded",
            "every identifier width combination (complete for the identifier-only kinds); string / "
            "body lengths in {0,1,2}; SFORequest / SFOReport / ProxySegmentationControl have "
-           "private fields and are proved from the decoder side only",
-           "all 26 reserved CFDP user operations")
-    two_ids = ["OrigTx", "RespStatus", "RespResume", "RespSuspend", "ReqSuspend", "ReqResume"]
-    for k in two_ids:
+           "private fields and are proved from the decoder side only (decode(b) = Ok(x) implies "
+           "encode(x) has length encoded_len(x) and decodes to x)",
+           "leaf codecs of the reserved CFDP user operations (the body after the message-type "
+           "octet); the kinds whose body is a MessageToUser / FlowLabel / FaultHandlerOverride / "
+           "TransmissionMode / FileStoreRequest / FileStoreResponse reuse the c05_fixed / c05_var "
+           "proofs, their framing is in c05_wrap")
+    U = "c05_userops"
+    for k in ("OrigTx", "RespStatus", "RespResume", "RespSuspend", "ReqSuspend", "ReqResume"):
         for we in WIDTHS:
             for ws in WIDTHS:
                 u = (k, we, ws)
-                add_rt("c05_userops", uo_name(u), "c05_userop(%s" % uo_rs(u), userop(u)[1])
+                add_rt(U, uo_name(u), UO_LEAF[k], "()", uo_shape(u), userop(u)[1][5:])
     for we in WIDTHS:
         for ws in WIDTHS:
             for l in ((1,) if (we, ws) != (1, 1) else (0, 1, 2)):
                 u = ("ReqStatus", we, ws, l)
-                add_rt("c05_userops", uo_name(u), "c05_userop(%s" % uo_rs(u), userop(u, A)[1])
+                add_rt(U, uo_name(u), UO_LEAF[u[0]], "()", uo_shape(u), userop(u, A)[1][5:])
     for w in WIDTHS:
-        for (l1, l2) in (((1, 2),) if w != 2 else ((1, 2), (0, 0), (2, 1))):
+        for (l1, l2) in (((1, 2),) if w != 2 else ((1, 2), (0, 0), (2, 1), (2, 2))):
             u = ("ProxyPut", w, l1, l2)
-            add_rt("c05_userops", uo_name(u), "c05_userop(%s" % uo_rs(u), userop(u, A)[1])
-    for k in ("ProxyMsg", "ProxyFlow", "SfoMsg", "SfoFlow"):
-        for n in L_Q:
-            u = (k, n)
-            add_rt("c05_userops", uo_name(u), "c05_userop(%s" % uo_rs(u), userop(u)[1])
-    for k in ("ProxyFho", "ProxyTm", "ProxyPutCancel", "RespProxyPut", "SfoFho"):
-        u = (k,)
-        add_rt("c05_userops", uo_name(u), "c05_userop(%s" % uo_rs(u), userop(u)[1])
-    for k in ("ProxyFsReq", "SfoFsReq", "RespDirList", "ReqDirList"):
+            add_rt(U, uo_name(u), UO_LEAF[u[0]], "()", uo_shape(u), userop(u, A)[1][5:])
+    u = ("RespProxyPut",)
+    add_rt(U, uo_name(u), UO_LEAF[u[0]], "()", "()", userop(u)[1][5:])
+    for k in ("RespDirList", "ReqDirList"):
         for (l1, l2) in ((0, 0), (1, 2), (2, 1), (2, 2), (0, 1)):
             u = (k, l1, l2)
-            add_rt("c05_userops", uo_name(u), "c05_userop(%s" % uo_rs(u), userop(u, A)[1])
-    for k in ("RespFs", "SfoFsResp"):
-        for (l1, l2, lm) in ((0, 0, 0), (1, 2, 0), (2, 1, 2), (0, 1, 1), (2, 2, 2)):
-            u = (k, l1, l2, lm)
-            add_rt("c05_userops", uo_name(u), "c05_userop(%s" % uo_rs(u), userop(u, A)[1])
+            add_rt(U, uo_name(u), UO_LEAF[k], "()", uo_shape(u), userop(u, A)[1][5:])
     # decoder-side (private fields)
     u = ("ProxySegCtrl",)
-    w, c = userop(u)
-    add_dec("c05_userops", "dec_" + uo_name(u), "UserOp", w, c)
-    for (ll, a, b, c3) in ((0, 1, 1, 1), (2, 2, 2, 2), (1, 4, 4, 4), (0, 8, 8, 8), (1, 1, 2, 4),
-                           (2, 8, 4, 2), (1, 2, 8, 1)):
-        u = ("SfoReport", ll, a, b, c3)
-        w, c = userop(u)
-        add_dec("c05_userops", "dec_" + uo_name(u), "UserOp", w, c)
-    for (ll, a, b, l1, l2) in ((0, 1, 1, 0, 0), (1, 2, 4, 1, 1), (2, 8, 8, 1, 0), (0, 4, 2, 0, 1),
-                               (1, 4, 8, 1, 1), (1, 1, 2, 1, 1)):
-        u = ("SfoRequest", ll, a, b, l1, l2)
-        w, c = userop(u, A)
-        add_dec("c05_userops", "dec_" + uo_name(u), "UserOp", w, c)
-
-    family("c05_pdu", "C05", "bounded",
-           "payload shapes as listed in the harness names; identifier widths (1,1) (2,4) (4,2) "
-           "(8,8) rotated over the payload kinds in the quick tier, all four for each in thorough",
-           "whole PDU (header ++ payload ++ CRC) through PDU::encode/decode, CRC on and off, "
-           "small and large file-size encodings")
-    kinds = [("Eof", None), ("Eof", 2), ("Ack",), ("KeepAlive",), ("Nak", 1), ("Prompt",),
-             ("Unseg", 2), ("Seg", 1, 1, 2), ("Meta", 1, 1, (("Fho",),)),
-             ("Fin", ((1, 0, 1),), True, 1)]
-    wcombos = [(1, 1), (2, 4), (4, 2), (8, 8)]
-    i = 0
-    for p in kinds:
-        for crc in (0, 1):
-            for fss in FSS:
-                for j, (we, ws) in enumerate(wcombos):
-                    pw, pc = payload(fss, p, A)
-                    segctl = (i + j) & 1
-                    h = header(we, ws, len(pc), crc, fss, pl_is_filedata(p), p[0] == "Seg", segctl,
-                               first_free=True)
-                    canon = h + pc + ([S, S] if crc else [])
-                    if len(canon) > 64:
-                        continue
-                    tier = "quick" if j == i % 4 else "thorough"
-                    add_rt("c05_pdu", "%s_%s_crc%d_e%d_s%d" % (pl_name(p), fl(fss), crc, we, ws),
-                           "c05_pdu(%d, %d, %s, %s, %s, %s" % (
-                               we, ws, "true" if crc else "false", "true" if segctl else "false",
-                               fs(fss), pl_rs(p)), canon, tier)
-                i += 1
+    t = userop(u)[1][5:]
+    add_dec(U, "dec_" + uo_name(u), UO_LEAF[u[0]], "()", t, t)
+    for sh in ((0, 1, 1, 1), (2, 2, 2, 2), (1, 4, 4, 4), (0, 8, 8, 8), (1, 1, 2, 4), (2, 8, 4, 2),
+               (1, 2, 8, 1)):
+        u = ("SfoReport",) + sh
+        t = userop(u)[1][5:]
+        add_dec(U, "dec_" + uo_name(u), UO_LEAF[u[0]], "()", t, t)
+    for sh in ((0, 1, 1, 0, 0), (1, 2, 4, 1, 1), (2, 8, 8, 1, 0), (0, 4, 2, 0, 1), (1, 4, 8, 1, 1),
+               (1, 1, 2, 1, 1)):
+        u = ("SfoRequest",) + sh
+        t = userop(u, A)[1][5:]
+        add_dec(U, "dec_" + uo_name(u), UO_LEAF[u[0]], "()", t, t)
 
     family("c05_report", "C05", "complete", "",
            "daemon::Report for every identifier width pair; state, status, condition symbolic")
     for we in WIDTHS:
         for ws in WIDTHS:
-            add_rt("c05_report", "e%d_s%d" % (we, ws), "c05_report(%d, %d" % (we, ws),
+            add_rt("c05_report", "e%d_s%d" % (we, ws), "Report", "()", "(%d, %d)" % (we, ws),
                    varid_enc(we) + varid_enc(ws) + [S, S, S])
+
+    family("c05_wrap", "C05", "bounded",
+           "one or two small shapes per enum variant (names give the shape); identifier widths "
+           "rotated",
+           "the enum dispatch layers around the leaf codecs -- MetadataTLV (type octet), Operations "
+           "(directive code), FileDataPDU, UserOperation ('cfdp' + message type + optional length "
+           "octet), PDUPayload, PDU (header ++ payload ++ CRC) -- round trip through the layer's "
+           "own encode / encoded_len / decode.  Expensive under Kani (enum payloads are moved by "
+           "value inside cfdp-core, which defeats CBMC's constant propagation), hence few shapes")
+    W = "c05_wrap"
+    for t in (("FsReq", 0, 0), ("FsReq", 1, 1), ("FsResp", 0, 0, 0), ("FsResp", 1, 0, 1), ("Msg", 0),
+              ("Msg", 2), ("Fho",), ("Flow", 0), ("Flow", 2), ("Eid", 1), ("Eid", 2), ("Eid", 4),
+              ("Eid", 8)):
+        add_rt(W, "tlv_" + tlv_name(t), "MetadataTLV", "()", tlv_rs(t), tlv(t, A),
+               "quick" if t[0] in ("Fho", "Eid") or t in (("Msg", 0), ("Flow", 0)) else "thorough")
+    for p in (("Eof", None), ("Eof", 2), ("Fin", (), False, None), ("Fin", ((0, 0, 0),), True, 1),
+              ("Ack",), ("Meta", 0, 0, ()), ("Meta", 1, 1, (("Fho",),)), ("Nak", 0), ("Nak", 1),
+              ("Prompt",), ("KeepAlive",)):
+        for fss in FSS:
+            if fss == "Large" and p[0] in ("Fin", "Ack", "Prompt", "Meta"):
+                continue
+            add_rt(W, "ops_" + pl_name(p) + "_" + fl(fss), "Operations", fs(fss), pl_rs(p),
+                   payload(fss, p, A)[1],
+                   "quick" if p[0] in ("Ack", "Prompt", "KeepAlive") or p == ("Eof", None) else "thorough")
+    for p in (("Unseg", 0), ("Unseg", 1), ("Seg", 0, 0, 1), ("Seg", 1, 1, 2)):
+        add_rt(W, "fd_" + pl_name(p) + "_s", "FileDataPDU", "(Fss::Small, %s)" % rb(p[0] == "Seg"),
+               pl_rs(p), payload("Small", p)[1], "thorough")
+        add_rt(W, "payload_" + pl_name(p) + "_s", "PDUPayload",
+               "(true, Fss::Small, %s)" % rb(p[0] == "Seg"), pl_rs(p), payload("Small", p)[1], "thorough")
+    for p in (("Ack",), ("KeepAlive",)):
+        add_rt(W, "payload_" + pl_name(p) + "_s", "PDUPayload", "(false, Fss::Small, false)",
+               pl_rs(p), payload("Small", p)[1], "thorough")
+    uos = [("OrigTx", 1, 2), ("OrigTx", 8, 8), ("ProxyPut", 2, 0, 1), ("ProxyMsg", 0), ("ProxyMsg", 1),
+           ("ProxyFsReq", 0, 0), ("ProxyFsReq", 1, 0), ("ProxyFho",), ("ProxyTm",), ("ProxyFlow", 0),
+           ("ProxyFlow", 1), ("ProxyPutCancel",), ("RespProxyPut",), ("RespFs", 0, 0, 0),
+           ("RespFs", 0, 1, 1), ("RespDirList", 0, 0), ("RespDirList", 1, 0), ("RespStatus", 2, 4),
+           ("RespStatus", 8, 1), ("RespResume", 4, 2), ("RespResume", 1, 8), ("RespSuspend", 1, 1),
+           ("RespSuspend", 8, 8), ("ReqDirList", 0, 0), ("ReqDirList", 0, 1), ("ReqStatus", 2, 2, 0),
+           ("ReqStatus", 8, 8, 1), ("ReqSuspend", 4, 1), ("ReqSuspend", 2, 8), ("ReqResume", 1, 4),
+           ("ReqResume", 8, 2), ("SfoMsg", 0), ("SfoMsg", 1), ("SfoFlow", 0), ("SfoFlow", 1), ("SfoFho",),
+           ("SfoFsReq", 0, 0), ("SfoFsReq", 0, 1), ("SfoFsResp", 0, 0, 0), ("SfoFsResp", 1, 0, 1)]
+    scalar = ("OrigTx", "ProxyFho", "ProxyTm", "ProxyPutCancel", "RespProxyPut", "RespStatus",
+              "RespResume", "RespSuspend", "ReqSuspend", "ReqResume", "SfoFho")
+    for u in uos:
+        add_rt(W, "uo_" + uo_name(u), "UserOperation", "()", uo_rs(u), userop(u, A)[1],
+               "quick" if u[0] in scalar and u[1:] in ((), (1, 2), (2, 4), (4, 2), (1, 1), (4, 1), (1, 4))
+               else "thorough")
+    for (u, ww) in ((("ProxySegCtrl",), None), (("SfoReport", 0, 1, 1, 1), None),
+                    (("SfoRequest", 0, 1, 1, 0, 0), None)):
+        t = userop(u, A)[1]
+        add_dec(W, "uo_dec_" + uo_name(u), "UserOperation", "()", t, t, tier="thorough")
+    # whole PDU
+    kinds = [("Ack",), ("KeepAlive",), ("Eof", None), ("Prompt",), ("Unseg", 1)]
+    wcombos = [(1, 1), (2, 4), (4, 2), (8, 8)]
+    i = 0
+    for p in kinds:
+        for crc in (0, 1):
+            for fss in FSS:
+                if fss == "Large" and p[0] in ("Ack", "Prompt"):
+                    continue
+                we, ws = wcombos[i % 4]
+                pc = payload(fss, p, A)[1]
+                segctl = i & 1
+                h = header(we, ws, len(pc), crc, fss, pl_is_filedata(p), p[0] == "Seg", segctl,
+                           first_free=True)
+                canon = h + pc + ([S, S] if crc else [])
+                add_rt(W, "pdu_%s_%s_crc%d_e%d_s%d" % (pl_name(p), fl(fss), crc, we, ws), "PDU", "()",
+                       "(%d, %d, %s, %s, %s, %s)" % (we, ws, rb(crc), rb(segctl), rb(fss == "Large"),
+                                                     pl_rs(p)), canon, "thorough")
+                i += 1
 
 
 # ---------------------------------------------------------------------------------------------- C06
@@ -565,28 +645,6 @@ def dgram(fss, pw, pc, crc=False, filedata=False, seg=False, we=1, ws=1):
 HL = 7   # header length with 1-octet identifiers
 
 
-def add_pdu(fam, name, fss, pw, pc, guards=(), tier="quick", **kw):
-    w, c = dgram(fss, pw, pc, **kw)
-    if len(w) > 64:
-        return
-    add_dec(fam, name + "_" + fl(fss), "Pdu", w, c, guards, tier=tier)
-
-
-def add_trunc(fam, name, fss, pw, tier="quick", crc=False, accept=True, **kw):
-    w, _ = dgram(fss, pw, pw, crc=crc, **kw)
-    if len(w) > 64:
-        return
-    K = len(w)
-    call = "checks::c06_pdu_trunc(%s, %d, %s, b)" % (rs_tpl(w), HL, "true" if crc else "false")
-    add(fam, name + "_" + fl(fss), K, call, unwind_for(K), accept, tier)
-
-
-def add_free(fam, name, dec, n, trunc=True, accept=True, tier="quick", unwind=10):
-    K = n + (1 if trunc else 0)
-    call = "checks::c06_free(Dec::%s, %d, %s, b)" % (dec, n, "true" if trunc else "false")
-    add(fam, name, K, call, unwind, accept, tier)
-
-
 def gen_c06():
     family("c06_arith", "C06", "complete", "",
            "all-octets-free no-panic proofs of the leaf decoders whose arithmetic depends on an "
@@ -594,95 +652,83 @@ def gen_c06():
            "every first/fourth octet x every identifier), VariableID::decode and "
            "read_length_value_pair over a free length octet + 256 free octets, "
            "SegmentedFileData::decode over a free first octet + 63 + 8 + 1 octets, "
-           "TransmissionMode / FaultHandlerOverride / SegmentRequestForm over all octets; each also "
-           "for every truncation (symbolic cut)")
-    add_free("c06_arith", "hdr_all", "Header", 28)
-    add_free("c06_arith", "varid_all", "VarId", 257)
-    add_free("c06_arith", "lv_all", "Lv", 256)
-    add_free("c06_arith", "tmode_all", "TMode", 1)
-    add_free("c06_arith", "fho_all", "Fho", 1)
+           "UnsegmentedFileData, SegmentRequestForm, TransmissionMode, FaultHandlerOverride, "
+           "PositiveAcknowledgePDU, PromptPDU, KeepAlivePDU over all octets; each also for every "
+           "truncation (symbolic cut)")
+    R = "c06_arith"
+    add_free(R, "hdr_all", "PDUHeader", "()", 28)
+    add_free(R, "varid_all", "VariableID", "()", 257)
+    add_free(R, "lv_all", "checks::Lv", "()", 256)
+    add_free(R, "tmode_all", "TransmissionMode", "()", 1)
+    add_free(R, "fho_all", "FaultHandlerOverride", "()", 1)
+    add_free(R, "ack_all", "PositiveAcknowledgePDU", "()", 2)
+    add_free(R, "prompt_all", "PromptPDU", "()", 1)
     for fss in FSS:
-        add_free("c06_arith", "segdata_first_" + fl(fss), "Payload(true, %s, true)" % fs(fss),
-                 1 + 63 + fsz(fss) + 1)
-        add_free("c06_arith", "unseg_" + fl(fss), "Payload(true, %s, false)" % fs(fss),
-                 fsz(fss) + 2)
-        add_free("c06_arith", "segreq_" + fl(fss), "SegReq(%s)" % fs(fss), 2 * fsz(fss))
+        f = fsz(fss)
+        add_free(R, "segdata_first_" + fl(fss), "SegmentedFileData", fs(fss), 1 + 63 + f + 1)
+        add_free(R, "unseg_" + fl(fss), "UnsegmentedFileData", fs(fss), f + 2)
+        add_free(R, "segreq_" + fl(fss), "SegmentRequestForm", fs(fss), 2 * f)
+        add_free(R, "keepalive_" + fl(fss), "KeepAlivePDU", fs(fss), f)
+        add_free(R, "nak_" + fl(fss), "NegativeAcknowledgmentPDU", fs(fss), 4 * f + 1, unwind=8)
+        add_free(R, "eof_noerr_" + fl(fss), "EndOfFile", fs(fss), 5 + f + 2, trunc=True)
 
-    # ---- per-type decoders -------------------------------------------------------------------
+    # ---- per-type leaf decoders -----------------------------------------------------------------
     family("c06_types", "C06", "bounded",
            "type / length octets enumerated (string and body lengths in {0,1,2}, identifier "
-           "widths 1,2,4,8), all value octets free; plus all-free inputs of 4..8 octets for the "
-           "flat decoders",
-           "public per-type decoders: UserOperation (all 27 message types + unknown), MetadataTLV, "
-           "FileStoreRequest, FileStoreResponse, FaultHandlerOverride, FlowLabel, MessageToUser, "
-           "VariableID, Report, PDUHeader: never panic, and what they accept is canonical")
+           "widths 1,2,4,8), all value octets free (file names NOT restricted to ASCII); plus "
+           "all-free inputs of 4..8 octets for the shallow decoders",
+           "public per-type leaf decoders: every user-operation body, FileStoreRequest, "
+           "FileStoreResponse, FaultHandlerOverride, FlowLabel, MessageToUser, VariableID, Report, "
+           "PDUHeader: never panic, and what they accept is canonical (re-encodes to the predicted "
+           "length, encoded_len agrees, decodes back to the same value)")
     T = "c06_types"
-    # user operations, exact shapes (free, i.e. possibly non-UTF-8, name octets)
     uos = []
     for k in ("OrigTx", "RespStatus", "RespResume", "RespSuspend", "ReqSuspend", "ReqResume"):
         uos += [(k, 1, 1), (k, 2, 4), (k, 8, 8), (k, 4, 1)]
     uos += [("ReqStatus", 1, 1, 0), ("ReqStatus", 2, 8, 2), ("ReqStatus", 4, 4, 1)]
     uos += [("ProxyPut", w, 1, 2) for w in WIDTHS] + [("ProxyPut", 1, 0, 0)]
-    for k in ("ProxyMsg", "ProxyFlow", "SfoMsg", "SfoFlow"):
-        uos += [(k, n) for n in L_Q]
-    uos += [(k,) for k in ("ProxyFho", "ProxyTm", "ProxySegCtrl", "ProxyPutCancel",
-                            "RespProxyPut", "SfoFho")]
-    for k in ("ProxyFsReq", "SfoFsReq", "RespDirList", "ReqDirList"):
+    uos += [("ProxySegCtrl",), ("RespProxyPut",)]
+    for k in ("RespDirList", "ReqDirList"):
         uos += [(k, 0, 0), (k, 1, 2), (k, 2, 1)]
-    for k in ("RespFs", "SfoFsResp"):
-        uos += [(k, 0, 0, 0), (k, 1, 2, 0), (k, 2, 0, 2)]
     uos += [("SfoReport", 0, 1, 1, 1), ("SfoReport", 2, 2, 4, 8), ("SfoReport", 1, 8, 8, 8)]
     uos += [("SfoRequest", 0, 1, 1, 0, 0), ("SfoRequest", 1, 2, 4, 1, 1), ("SfoRequest", 2, 8, 8, 0, 1)]
     for u in uos:
         # SFORequest can only be compared with the derived (path component) equality: ASCII names
-        w, c = userop(u, A if u[0] == "SfoRequest" else S)
-        add_dec(T, "uo_" + uo_name(u), "UserOp", w, c)
-    pre = [C(0x63), C(0x66), C(0x64), C(0x70)]
-    # malformed: unknown / unsupported message types, bad identifier widths, inner length octets
-    # that exceed the body, wrong reserved identifier
-    for mt in (0x0B, 0x0C, 0x12, 0x47, 0xFF):
-        add_dec(T, "uo_badtype_%02x" % mt, "UserOp", pre + [C(mt), S, S], None)
+        t = userop(u, A if u[0] == "SfoRequest" else S)[1][5:]
+        add_dec(T, "uo_" + uo_name(u), UO_LEAF[u[0]], "()", t, t)
+    # malformed bodies
     for (we, ws) in ((3, 1), (1, 5), (7, 6)):
-        add_dec(T, "uo_origtx_badwidth_%d_%d" % (we, ws), "UserOp",
-                pre + [C(0x0A), C(((we - 1) << 4) | (ws - 1))] + [S] * (we + ws), None)
+        add_dec(T, "uo_origtx_badwidth_%d_%d" % (we, ws), "OriginatingTransactionIDMessage", "()",
+                [C(((we - 1) << 4) | (ws - 1))] + [S] * (we + ws), None)
+        add_dec(T, "uo_respresume_badwidth_%d_%d" % (we, ws), "RemoteResumeResponse", "()",
+                [S, C(((we - 1) << 4) | (ws - 1))] + [S] * (we + ws), None)
     for w in (0, 3, 9):
-        add_dec(T, "uo_proxyput_badwidth_%d" % w, "UserOp",
-                pre + [C(0x00), C(w)] + [S] * w + lv(1) + lv(1), None)
-    add_dec(T, "uo_reqdirlist_overlong", "UserOp", pre + [C(0x10), C(1), S, C(3), S, S], None)
-    add_dec(T, "uo_sforeport_badwidth", "UserOp",
-            pre + [C(0x45), C(0), C(3), S, S, S, C(1), S, C(1), S, S, S, S], None)
-    add_dec(T, "uo_free_ident", "UserOp", [S] * 7, None, lax=True, accept=False)
-    # the ignored length octet of the four "file store inside a user operation" kinds: any value
-    for (k, mt) in (("ProxyFsReq", 0x02), ("RespFs", 0x08), ("SfoFsReq", 0x44), ("SfoFsResp", 0x46)):
-        body = fsreq(1, 1) if "Req" in k else fsresp(1, 0, 1)
-        add_dec(T, "uo_%s_anylen" % k.lower(), "UserOp", pre + [C(mt), S] + body,
-                pre + [C(mt), C(len(body))] + body)
-    # TLVs
-    tl = [("FsReq", a, b) for (a, b) in ((0, 0), (1, 2), (2, 1), (2, 2))]
-    tl += [("FsResp", a, b, c) for (a, b, c) in ((0, 0, 0), (1, 0, 2), (0, 2, 1), (2, 2, 2))]
-    tl += [("Msg", n) for n in L_Q] + [("Flow", n) for n in L_Q] + [("Fho",)]
-    tl += [("Eid", w) for w in WIDTHS]
-    for t in tl:
-        add_dec(T, "tlv_" + tlv_name(t), "Tlv", tlv(t), tlv(t))
-    for code in (0x03, 0x07, 0xFF):
-        add_dec(T, "tlv_badtype_%02x" % code, "Tlv", [C(code), S, S], None)
-    for wm1 in (2, 4, 5, 6, 8, 0xFE):
-        add_dec(T, "tlv_eid_badwidth_%02x" % wm1, "Tlv", [C(0x06), C(wm1)] + [S] * min(wm1 + 1, 12), None)
-    add_dec(T, "tlv_fsreq_overlong", "Tlv", [C(0x00), S, C(1), S, C(4), S, S], None)
-    # standalone decoders
-    for (a, b) in ((0, 0), (1, 2), (2, 2)):
-        add_dec(T, "fsreq_%d%d" % (a, b), "FsReq", fsreq(a, b), fsreq(a, b))
-    for (a, b, c) in ((0, 0, 0), (1, 2, 1), (2, 2, 2)):
-        add_dec(T, "fsresp_%d%d%d" % (a, b, c), "FsResp", fsresp(a, b, c), fsresp(a, b, c))
+        add_dec(T, "uo_proxyput_badwidth_%d" % w, "ProxyPutRequest", "()",
+                [C(w)] + [S] * w + lv(1) + lv(1), None)
+    add_dec(T, "uo_reqdirlist_overlong", "DirectoryListingRequest", "()", [C(1), S, C(3), S, S], None)
+    add_dec(T, "uo_sforeport_badwidth", "SFOReport", "()",
+            [C(0), C(3), S, S, S, C(1), S, C(1), S, S, S, S], None)
+    add_dec(T, "uo_sforequest_badwidth", "SFORequest", "()",
+            [S, S, C(0), C(1), S, C(5), S, S, S, S, S, C(0), C(0)], None)
+    for (a, b) in ((0, 0), (1, 2), (2, 1), (2, 2)):
+        add_dec(T, "fsreq_%d%d" % (a, b), "FileStoreRequest", "()", fsreq(a, b), fsreq(a, b))
+    add_dec(T, "fsreq_overlong", "FileStoreRequest", "()", [S, C(1), S, C(4), S, S], None)
+    for (a, b, c) in ((0, 0, 0), (1, 0, 2), (0, 2, 1), (2, 2, 2)):
+        add_dec(T, "fsresp_%d%d%d" % (a, b, c), "FileStoreResponse", "()", fsresp(a, b, c), fsresp(a, b, c))
+    add_dec(T, "fsresp_overlong", "FileStoreResponse", "()", [S, C(0), C(0), C(2), S], None)
     for n in L_Q:
-        add_dec(T, "flow_%d" % n, "Flow", lv(n), lv(n))
-        add_dec(T, "msg_%d" % n, "Msg", lv(n), lv(n))
+        add_dec(T, "flow_%d" % n, "FlowLabel", "()", lv(n), lv(n))
+        add_dec(T, "msg_%d" % n, "MessageToUser", "()", lv(n), lv(n))
+    for w in WIDTHS:
+        add_dec(T, "varid_w%d" % w, "VariableID", "()", varid_enc(w), varid_enc(w))
+    for wm1 in (2, 4, 5, 6, 8, 0xFE):
+        add_dec(T, "varid_badwidth_%02x" % wm1, "VariableID", "()", [C(wm1)] + [S] * min(wm1 + 1, 12), None)
     for we in WIDTHS:
         for ws in WIDTHS:
             rep = varid_enc(we) + varid_enc(ws) + [S, S, S]
-            add_dec(T, "report_e%d_s%d" % (we, ws), "Report", rep, rep,
+            add_dec(T, "report_e%d_s%d" % (we, ws), "Report", "()", rep, rep,
                     tier="quick" if we == ws or (we, ws) in ((1, 8), (4, 2)) else "thorough")
-    add_dec(T, "report_badwidth", "Report", [C(2), S, S, S, C(0), S, S, S, S], None)
+    add_dec(T, "report_badwidth", "Report", "()", [C(2), S, S, S, C(0), S, S, S, S], None)
     for we in WIDTHS:
         for ws in WIDTHS:
             for segctl in (0, 1):
@@ -691,150 +737,95 @@ def gen_c06():
                     h[0] = S
                     h[1] = S
                     h[2] = S
-                    # CRC flag set and length field < 2 is malformed: guard it out here (it is
-                    # covered by c06_arith hdr_all); canonical otherwise
                     tier = "quick" if we == ws and segctl == seg else "thorough"
-                    add_dec(T, "hdr_e%d_s%d_c%d_m%d" % (we, ws, segctl, seg), "Header", h, h, tier=tier)
-    # all-free inputs for the flat / shallow decoders
-    add_free(T, "free_report", "Report", 8)
-    add_free(T, "free_tlv", "Tlv", 4, tier="thorough")
-    add_free(T, "free_fsreq", "FsReq", 4, tier="thorough")
-    add_free(T, "free_fsresp", "FsResp", 5, tier="thorough")
-    add_free(T, "free_flow", "Flow", 4)
-    add_free(T, "free_msg", "Msg", 4)
+                    add_dec(T, "hdr_e%d_s%d_c%d_m%d" % (we, ws, segctl, seg), "PDUHeader", "()", h, h,
+                            tier=tier)
+    add_free(T, "free_report", "Report", "()", 8)
+    add_free(T, "free_fsreq", "FileStoreRequest", "()", 4, tier="thorough")
+    add_free(T, "free_fsresp", "FileStoreResponse", "()", 5, tier="thorough")
+    add_free(T, "free_flow", "FlowLabel", "()", 4)
+    add_free(T, "free_msg", "MessageToUser", "()", 4)
+    add_free(T, "free_origtx", "OriginatingTransactionIDMessage", "()", 17)
+    add_free(T, "free_respsuspend", "RemoteSuspendResponse", "()", 18)
 
-    # ---- whole datagrams -----------------------------------------------------------------------
-    doc_c = ("PDU::decode on whole datagrams (7-octet header with 1-octet identifiers, CRC off "
-             "unless stated; header variety is covered by c06_arith/c06_types/c05_header): "
-             "well-formed layouts, with and without ignored trailing octets; every accepted "
-             "datagram re-encodes (length field recomputed) to something that decodes to the same PDU")
-    doc_b = ("PDU::decode never panics / loops on malformed layouts: every truncation of the "
-             "longest layouts (length field adjusted), unknown / unexpected TLV and directive codes, "
-             "inner lengths exceeding outer ones, bad identifier widths")
-    bound = ("first 4 header octets, directive code, TLV type and length octets enumerated; "
-             "string / body / list lengths in {0,1,2}; all other octets free")
-    classes = ("eof", "finished", "ack", "metadata", "nak", "prompt", "keepalive", "filedata", "misc")
+    # ---- directive / file-data classes at leaf level ----------------------------------------------
+    doc_c = ("leaf decoder of the class (EndOfFile::decode, Finished::decode, ... exactly what "
+             "Operations::decode / FileDataPDU::decode call after the directive code, on exactly the "
+             "pdu_data_field_length octets PDU::decode slices off): well-formed layouts, with and "
+             "without ignored trailing octets; everything accepted re-encodes to the predicted "
+             "canonical length and decodes back to the same value")
+    doc_b = ("same decoders never panic / loop on malformed layouts: every truncation of the "
+             "longest layouts, unknown / unexpected TLV codes, inner lengths exceeding outer ones, "
+             "bad identifier widths")
+    bound = ("TLV type and length octets enumerated; string / body / list lengths in {0,1,2}; all "
+             "other octets free")
+    classes = ("eof", "finished", "metadata", "nak", "filedata", "small")
     for c in classes:
         family("c06_canon_" + c, "C06", "bounded", bound, doc_c)
         family("c06_bytes_" + c, "C06", "bounded", bound, doc_b)
 
-    B0 = HL + 1   # wire index of the octet after the directive code
     for fss in FSS:
         f = fsz(fss)
-        # EOF
-        base = [C(0x04), S] + [S] * 4 + [S] * f
-        add_pdu("c06_canon_eof", "noerr", fss, base, base, [(B0, 0xF0, 0x00, True)])
-        add_pdu("c06_canon_eof", "noerr_trail2", fss, base + [S, S], base, [(B0, 0xF0, 0x00, True)])
+        x = "_" + fl(fss)
+        # EOF (octet 0 = condition nibble | spare)
+        base = [S] + [S] * 4 + [S] * f
+        E = ("EndOfFile", fs(fss))
+        add_dec("c06_canon_eof", "noerr" + x, *E, base, base, [(0, 0xF0, 0x00, True)])
+        add_dec("c06_canon_eof", "noerr_trail2" + x, *E, base + [S, S], base, [(0, 0xF0, 0x00, True)])
         for w in WIDTHS:
             t = base + [C(0x06)] + varid_enc(w)
-            add_pdu("c06_canon_eof", "err_w%d" % w, fss, t, t, [(B0, 0xF0, 0x00, False)])
+            add_dec("c06_canon_eof", "err_w%d" % w + x, *E, t, t, [(0, 0xF0, 0x00, False)])
         t = base + [C(0x06)] + varid_enc(2) + [S]
-        add_pdu("c06_canon_eof", "err_w2_trail1", fss, t, t[:-1], [(B0, 0xF0, 0x00, False)])
-        for code in (0x01, 0x05, 0x03, 0x6):
-            if code == 0x6:
-                continue
-            add_pdu("c06_bytes_eof", "err_tlvtype_%02x" % code, fss, base + [C(code), C(0), S], None,
-                    [(B0, 0xF0, 0x00, False)])
+        add_dec("c06_canon_eof", "err_w2_trail1" + x, *E, t, t[:-1], [(0, 0xF0, 0x00, False)])
+        for code in (0x00, 0x01, 0x05, 0x03, 0xFF):
+            add_dec("c06_bytes_eof", "err_tlvtype_%02x" % code + x, *E, base + [C(code), C(0), S], None,
+                    [(0, 0xF0, 0x00, False)], tier="quick" if fss == "Small" else "thorough")
         for wm1 in (2, 4, 0xFF):
-            add_pdu("c06_bytes_eof", "err_badwidth_%02x" % wm1, fss,
-                    base + [C(0x06), C(wm1)] + [S] * 9, None, [(B0, 0xF0, 0x00, False)])
-        add_trunc("c06_bytes_eof", "trunc_err_w8", fss, base + [C(0x06)] + varid_enc(8))
+            add_dec("c06_bytes_eof", "err_badwidth_%02x" % wm1 + x, *E,
+                    base + [C(0x06), C(wm1)] + [S] * 9, None, [(0, 0xF0, 0x00, False)])
+        add_trunc("c06_bytes_eof", "trunc_err_w8" + x, *E, base + [C(0x06)] + varid_enc(8))
 
-        # ACK / Prompt / KeepAlive
+        # small fixed classes
         if fss == "Small":
-            add_pdu("c06_canon_ack", "exact", fss, [C(0x06), S, S], [C(0x06), S, S])
-            add_pdu("c06_canon_ack", "trail2", fss, [C(0x06), S, S, S, S], [C(0x06), S, S])
-            add_trunc("c06_bytes_ack", "trunc", fss, [C(0x06), S, S])
-            add_pdu("c06_canon_prompt", "exact", fss, [C(0x09), S], [C(0x09), S])
-            add_pdu("c06_canon_prompt", "trail1", fss, [C(0x09), S, S], [C(0x09), S])
-            add_trunc("c06_bytes_prompt", "trunc", fss, [C(0x09), S])
-        ka = [C(0x0C)] + [S] * f
-        add_pdu("c06_canon_keepalive", "exact", fss, ka, ka)
-        add_pdu("c06_canon_keepalive", "trail2", fss, ka + [S, S], ka)
-        add_trunc("c06_bytes_keepalive", "trunc", fss, ka)
+            add_dec("c06_canon_small", "ack", "PositiveAcknowledgePDU", "()", [S, S], [S, S])
+            add_dec("c06_canon_small", "ack_trail2", "PositiveAcknowledgePDU", "()", [S, S, S, S], [S, S])
+            add_dec("c06_canon_small", "prompt", "PromptPDU", "()", [S], [S])
+            add_dec("c06_canon_small", "prompt_trail1", "PromptPDU", "()", [S, S], [S])
+        ka = [S] * f
+        add_dec("c06_canon_small", "keepalive" + x, "KeepAlivePDU", fs(fss), ka, ka)
+        add_dec("c06_canon_small", "keepalive_trail2" + x, "KeepAlivePDU", fs(fss), ka + [S, S], ka)
 
         # NAK
+        N = ("NegativeAcknowledgmentPDU", fs(fss))
         for n in (0, 1, 2, 3):
-            t = payload(fss, ("Nak", n))[0]
-            add_pdu("c06_canon_nak", "n%d" % n, fss, t, t, tier="quick" if n < 3 else "thorough")
-        t = payload(fss, ("Nak", 1))[0]
-        add_trunc("c06_bytes_nak", "trunc_n1", fss, t)
-        add_trunc("c06_bytes_nak", "trunc_n2", fss, payload(fss, ("Nak", 2))[0], tier="thorough")
+            t = payload(fss, ("Nak", n))[0][1:]
+            if len(t) <= 64:
+                add_dec("c06_canon_nak", "n%d" % n + x, *N, t, t, tier="quick" if n < 3 else "thorough")
+        add_trunc("c06_bytes_nak", "trunc_n1" + x, *N, payload(fss, ("Nak", 1))[0][1:])
+        if fss == "Small":
+            add_trunc("c06_bytes_nak", "trunc_n2" + x, *N, payload(fss, ("Nak", 2))[0][1:], tier="thorough")
 
         # file data
         for n in (0, 1, 2, 6):
             t = [S] * (f + n)
-            add_pdu("c06_canon_filedata", "unseg%d" % n, fss, t, t, filedata=True,
+            add_dec("c06_canon_filedata", "unseg%d" % n + x, "UnsegmentedFileData", fs(fss), t, t,
                     tier="quick" if n < 6 else "thorough")
-        add_trunc("c06_bytes_filedata", "trunc_unseg2", fss, [S] * (f + 2), filedata=True)
+        add_trunc("c06_bytes_filedata", "trunc_unseg2" + x, "UnsegmentedFileData", fs(fss), [S] * (f + 2))
         for r in (0, 1, 2, 3):
             for (m, n) in ((0, 0), (1, 1), (2, 0), (0, 2), (2, 2), (6, 6)):
                 if (m, n) != (1, 1) and r != 1:
                     continue
                 t = payload(fss, ("Seg", m, n, r))[0]
-                add_pdu("c06_canon_filedata", "seg%d_%d_s%d" % (m, n, r), fss, t, t, filedata=True,
-                        seg=True, tier="quick" if max(m, n) < 6 else "thorough")
-        add_trunc("c06_bytes_filedata", "trunc_seg2_1", fss, payload(fss, ("Seg", 2, 1, 2))[0],
-                  filedata=True, seg=True)
-
-        # Finished (fss does not matter: only under Small)
-        if fss == "Small":
-            def resp(l1, l2, lm, extra=0):
-                body = fsresp(l1, l2, lm)
-                return ([C(0x01), C(len(body) + extra)] + body + [S] * extra,
-                        [C(0x01), C(len(body))] + body)
-
-            def eid(w):
-                return ([C(0x06)] + varid_enc(w),) * 2
-            fin = [C(0x05), S]
-            shapes = {
-                "empty": [],
-                "r102": [resp(1, 0, 2)],
-                "r021": [resp(0, 2, 1)],
-                "r222": [resp(2, 2, 2)],
-                "r000_x2": [resp(0, 0, 0, 2)],
-                "r110_r011": [resp(1, 1, 0), resp(0, 1, 1)],
-                "r000_r000_r000": [resp(0, 0, 0)] * 3,
-            }
-            for nm, items in shapes.items():
-                w = fin + [o for it in items for o in it[0]]
-                c = fin + [o for it in items for o in it[1]]
-                add_pdu("c06_canon_finished", nm, fss, w, c)
-                for wd in WIDTHS:
-                    if nm not in ("empty", "r102") and wd not in (2,):
-                        continue
-                    e = eid(wd)
-                    add_pdu("c06_canon_finished", nm + "_w%d" % wd, fss, w + e[0], c + e[1],
-                            [(B0, 0xF0, 0x00, False)])
-            # fault location first / twice: accepted, canonical form has it last / once
-            r = resp(1, 0, 1)
-            add_pdu("c06_canon_finished", "w2_then_r101", fss, fin + eid(2)[0] + r[0],
-                    fin + r[1] + eid(2)[1], [(B0, 0xF0, 0x00, False)])
-            add_pdu("c06_canon_finished", "w1_w4", fss, fin + eid(1)[0] + eid(4)[0],
-                    fin + eid(4)[1], [(B0, 0xF0, 0x00, False)])
-            # malformed
-            add_pdu("c06_bytes_finished", "noerr_with_eid", fss, fin + eid(2)[0], None,
-                    [(B0, 0xF0, 0x00, True)])
-            for code in (0x00, 0x02, 0x04, 0x05, 0x03, 0x07, 0xFF):
-                add_pdu("c06_bytes_finished", "tlvtype_%02x" % code, fss, fin + [C(code), C(1), S], None)
-            add_pdu("c06_bytes_finished", "resp_outer_short", fss,
-                    fin + [C(0x01), C(3), S, C(2), S], None)
-            add_pdu("c06_bytes_finished", "resp_outer_overruns", fss,
-                    fin + [C(0x01), C(9), S, C(0), C(0), C(0)], None)
-            add_pdu("c06_bytes_finished", "resp_inner_overlong", fss,
-                    fin + [C(0x01), C(4), S, C(0), C(0), C(5)], None)
-            add_pdu("c06_bytes_finished", "resp_len0", fss, fin + [C(0x01), C(0)], None)
-            for wm1 in (2, 6, 0xFF):
-                add_pdu("c06_bytes_finished", "eid_badwidth_%02x" % wm1, fss,
-                        fin + [C(0x06), C(wm1)] + [S] * 8, None)
-            w = fin + resp(1, 1, 1)[0] + eid(2)[0]
-            add_trunc("c06_bytes_finished", "trunc_r111_w2", fss, w)
-            w = fin + resp(0, 0, 0)[0] + resp(2, 0, 0)[0]
-            add_trunc("c06_bytes_finished", "trunc_r000_r200", fss, w)
+                add_dec("c06_canon_filedata", "seg%d_%d_s%d" % (m, n, r) + x, "SegmentedFileData",
+                        fs(fss), t, t, tier="quick" if max(m, n) < 6 else "thorough")
+        add_trunc("c06_bytes_filedata", "trunc_seg2_1" + x, "SegmentedFileData", fs(fss),
+                  payload(fss, ("Seg", 2, 1, 2))[0])
 
         # Metadata
+        M = ("MetadataPDU", fs(fss))
+
         def meta(ls, ld, opts):
-            return payload(fss, ("Meta", ls, ld, opts))[0]
+            return payload(fss, ("Meta", ls, ld, opts))[0][1:]
         mshapes = [(0, 0, ()), (1, 2, ()), (2, 1, (("Msg", 1),)), (1, 1, (("Fho",),)),
                    (1, 0, (("Flow", 2),)), (0, 1, (("Eid", 4),)), (1, 1, (("FsReq", 1, 1),)),
                    (1, 1, (("FsResp", 1, 0, 1),)), (1, 1, (("Msg", 2), ("Fho",))),
@@ -843,50 +834,132 @@ def gen_c06():
             if fss == "Large" and len(o) > 1:
                 continue
             t = meta(ls, ld, o)
-            add_pdu("c06_canon_metadata", pl_name(("Meta", ls, ld, o)), fss, t, t)
+            add_dec("c06_canon_metadata", pl_name(("Meta", ls, ld, o)) + x, *M, t, t)
         m0 = meta(1, 1, ())
         for code in (0x03, 0x07, 0xFF):
-            add_pdu("c06_bytes_metadata", "tlvtype_%02x" % code, fss, m0 + [C(code), S], None)
-        add_pdu("c06_bytes_metadata", "eid_badwidth", fss, m0 + [C(0x06), C(2), S, S, S], None)
-        add_pdu("c06_bytes_metadata", "name_overlong", fss,
-                [C(0x07), S] + [S] * f + [C(1), S, C(9), S, S], None)
-        add_pdu("c06_bytes_metadata", "msg_overlong", fss, m0 + [C(0x02), C(3), S], None)
-        add_trunc("c06_bytes_metadata", "trunc_1_1_msg1_fho", fss, meta(1, 1, (("Msg", 1), ("Fho",))))
-        add_trunc("c06_bytes_metadata", "trunc_2_0_fsreq11", fss, meta(2, 0, (("FsReq", 1, 1),)),
+            add_dec("c06_bytes_metadata", "tlvtype_%02x" % code + x, *M, m0 + [C(code), S], None,
+                    tier="quick" if fss == "Small" else "thorough")
+        add_dec("c06_bytes_metadata", "eid_badwidth" + x, *M, m0 + [C(0x06), C(2), S, S, S], None)
+        add_dec("c06_bytes_metadata", "name_overlong" + x, *M,
+                [S] + [S] * f + [C(1), S, C(9), S, S], None)
+        add_dec("c06_bytes_metadata", "msg_overlong" + x, *M, m0 + [C(0x02), C(3), S], None)
+        add_trunc("c06_bytes_metadata", "trunc_1_1_msg1_fho" + x, *M, meta(1, 1, (("Msg", 1), ("Fho",))))
+        add_trunc("c06_bytes_metadata", "trunc_2_0_fsreq11" + x, *M, meta(2, 0, (("FsReq", 1, 1),)),
                   tier="thorough")
 
-        # misc: unknown directive codes, empty payloads
-        for code in (0x00, 0x03, 0x0A, 0x0B, 0x0D, 0xFF):
-            add_pdu("c06_bytes_misc", "directive_%02x" % code, fss, [C(code), S, S], None,
-                    tier="quick" if fss == "Small" else "thorough")
-    add_pdu("c06_bytes_misc", "directive_empty", "Small", [], None)
-    add_pdu("c06_bytes_misc", "filedata_empty", "Small", [], None, filedata=True)
-    add_pdu("c06_bytes_misc", "segdata_empty", "Large", [], None, filedata=True, seg=True)
-    # CRC flag set, length field 0 / 1  (header.rs:395)
-    for field in (0, 1):
+    # Finished (no file-size dependence)
+    def resp(l1, l2, lm, extra=0):
+        body = fsresp(l1, l2, lm)
+        return ([C(0x01), C(len(body) + extra)] + body + [S] * extra,
+                [C(0x01), C(len(body))] + body)
+
+    def eid(w):
+        return ([C(0x06)] + varid_enc(w),) * 2
+    FN = ("Finished", "()")
+    fin = [S]
+    shapes = {
+        "empty": [],
+        "r102": [resp(1, 0, 2)],
+        "r021": [resp(0, 2, 1)],
+        "r222": [resp(2, 2, 2)],
+        "r000_x2": [resp(0, 0, 0, 2)],
+        "r110_r011": [resp(1, 1, 0), resp(0, 1, 1)],
+        "r000_r000_r000": [resp(0, 0, 0)] * 3,
+    }
+    for nm, items in shapes.items():
+        w = fin + [o for it in items for o in it[0]]
+        c = fin + [o for it in items for o in it[1]]
+        add_dec("c06_canon_finished", nm, *FN, w, c)
+        for wd in WIDTHS:
+            if nm not in ("empty", "r102") and wd not in (2,):
+                continue
+            e = eid(wd)
+            add_dec("c06_canon_finished", nm + "_w%d" % wd, *FN, w + e[0], c + e[1],
+                    [(0, 0xF0, 0x00, False)])
+    r = resp(1, 0, 1)
+    # fault location first / twice: accepted; the canonical form has it last / once
+    add_dec("c06_canon_finished", "w2_then_r101", *FN, fin + eid(2)[0] + r[0], fin + r[1] + eid(2)[1],
+            [(0, 0xF0, 0x00, False)])
+    add_dec("c06_canon_finished", "w1_w4", *FN, fin + eid(1)[0] + eid(4)[0], fin + eid(4)[1],
+            [(0, 0xF0, 0x00, False)])
+    add_dec("c06_bytes_finished", "noerr_with_eid", *FN, fin + eid(2)[0], None, [(0, 0xF0, 0x00, True)])
+    for code in (0x00, 0x02, 0x04, 0x05, 0x03, 0x07, 0xFF):
+        add_dec("c06_bytes_finished", "tlvtype_%02x" % code, *FN, fin + [C(code), C(1), S], None)
+    add_dec("c06_bytes_finished", "resp_outer_short", *FN, fin + [C(0x01), C(3), S, C(2), S], None)
+    add_dec("c06_bytes_finished", "resp_outer_overruns", *FN, fin + [C(0x01), C(9), S, C(0), C(0), C(0)], None)
+    add_dec("c06_bytes_finished", "resp_inner_overlong", *FN, fin + [C(0x01), C(4), S, C(0), C(0), C(5)], None)
+    add_dec("c06_bytes_finished", "resp_len0", *FN, fin + [C(0x01), C(0)], None)
+    for wm1 in (2, 6, 0xFF):
+        add_dec("c06_bytes_finished", "eid_badwidth_%02x" % wm1, *FN, fin + [C(0x06), C(wm1)] + [S] * 8, None)
+    add_trunc("c06_bytes_finished", "trunc_r111_w2", *FN, fin + resp(1, 1, 1)[0] + eid(2)[0])
+    add_trunc("c06_bytes_finished", "trunc_r000_r200", *FN, fin + resp(0, 0, 0)[0] + resp(2, 0, 0)[0])
+
+    # ---- dispatch layers -----------------------------------------------------------------------
+    family("c06_dispatch", "C06", "bounded",
+           "directive code / TLV type / message type octet enumerated (every defined value plus "
+           "undefined ones), smallest body per variant; whole datagrams: 7-octet header, CRC off "
+           "and on, a few classes",
+           "the enum dispatch layers on top of the leaf decoders: MetadataTLV::decode, "
+           "Operations::decode, FileDataPDU::decode, UserOperation::decode (incl. the ignored "
+           "length octet of the four file-store kinds), PDUPayload::decode, PDU::decode "
+           "(header ++ slice of pdu_data_field_length octets ++ CRC check): never panic, accepted "
+           "values canonical.  Expensive (see c05_wrap)")
+    D = "c06_dispatch"
+    for t in (("FsReq", 0, 0), ("FsResp", 0, 0, 0), ("Msg", 1), ("Fho",), ("Flow", 1), ("Eid", 2)):
+        add_dec(D, "tlv_" + tlv_name(t), "MetadataTLV", "()", tlv(t), tlv(t),
+                tier="quick" if t[0] in ("Fho", "Eid") else "thorough")
+    for code in (0x03, 0x07, 0xFF):
+        add_dec(D, "tlv_badtype_%02x" % code, "MetadataTLV", "()", [C(code), S, S], None)
+    for p in (("Eof", None), ("Fin", (), False, None), ("Ack",), ("Meta", 0, 0, ()), ("Nak", 0),
+              ("Prompt",), ("KeepAlive",)):
+        t = payload("Small", p)[0]
+        g = [(1, 0xF0, 0x00, True)] if p[0] == "Eof" else ()
+        add_dec(D, "ops_" + pl_name(p), "Operations", "Fss::Small", t, t, g,
+                tier="quick" if p[0] in ("Ack", "Prompt", "KeepAlive") else "thorough")
+    for code in (0x00, 0x03, 0x0A, 0x0B, 0x0D, 0xFF):
+        add_dec(D, "ops_directive_%02x" % code, "Operations", "Fss::Small", [C(code), S, S], None,
+                tier="quick" if code in (0x00, 0xFF) else "thorough")
+    add_dec(D, "ops_empty", "Operations", "Fss::Small", [], None)
+    add_dec(D, "fd_unseg1", "FileDataPDU", "(Fss::Small, false)", [S] * 5, [S] * 5, tier="thorough")
+    t = payload("Small", ("Seg", 1, 1, 1))[0]
+    add_dec(D, "fd_seg1_1", "FileDataPDU", "(Fss::Small, true)", t, t, tier="thorough")
+    pre = [C(0x63), C(0x66), C(0x64), C(0x70)]
+    uos = [("OrigTx", 1, 1), ("ProxyPut", 1, 0, 0), ("ProxyMsg", 1), ("ProxyFsReq", 0, 0), ("ProxyFho",),
+           ("ProxyTm",), ("ProxyFlow", 1), ("ProxySegCtrl",), ("RespProxyPut",), ("RespFs", 0, 0, 0),
+           ("ProxyPutCancel",), ("ReqDirList", 0, 0), ("RespDirList", 0, 0), ("ReqStatus", 1, 1, 0),
+           ("RespStatus", 1, 1), ("ReqSuspend", 1, 1), ("RespSuspend", 1, 1), ("ReqResume", 1, 1),
+           ("RespResume", 1, 1), ("SfoRequest", 0, 1, 1, 0, 0), ("SfoMsg", 1), ("SfoFlow", 1), ("SfoFho",),
+           ("SfoFsReq", 0, 0), ("SfoReport", 0, 1, 1, 1), ("SfoFsResp", 0, 0, 0)]
+    for u in uos:
+        t = userop(u, A if u[0] == "SfoRequest" else S)[1]
+        add_dec(D, "uo_" + uo_name(u), "UserOperation", "()", t, t,
+                tier="quick" if u[0] in ("ProxyFho", "ProxyTm", "ProxyPutCancel", "SfoFho", "ProxySegCtrl",
+                                          "RespProxyPut") else "thorough")
+    for mt in (0x0B, 0x0C, 0x12, 0x47, 0xFF):
+        add_dec(D, "uo_badtype_%02x" % mt, "UserOperation", "()", pre + [C(mt), S, S], None)
+    add_dec(D, "uo_free_ident", "UserOperation", "()", [S] * 7, None, lax=True, accept=False)
+    for (k, mt) in (("ProxyFsReq", 0x02), ("RespFs", 0x08), ("SfoFsReq", 0x44), ("SfoFsResp", 0x46)):
+        body = fsreq(0, 0) if "Req" in k else fsresp(0, 0, 0)
+        add_dec(D, "uo_%s_anylen" % k.lower(), "UserOperation", "()", pre + [C(mt), S] + body,
+                pre + [C(mt), C(len(body))] + body, tier="thorough")
+    # whole datagrams
+    for (nm, p, kw) in (("ack", [C(0x06), S, S], {}), ("prompt", [C(0x09), S], {}),
+                        ("keepalive", [C(0x0C)] + [S] * 4, {}),
+                        ("eof_noerr", [C(0x04), C(0x00)] + [S] * 8, {}),
+                        ("unseg1", [S] * 5, dict(filedata=True))):
+        for crc in (False, True):
+            w, c = dgram("Small", p, p, crc=crc, **kw)
+            add_dec(D, "pdu_%s_crc%d" % (nm, crc), "PDU", "()", w, c, tier="thorough")
+    for field in (0, 1):   # CRC flag set, length field 0 / 1  (header.rs:395)
         w = header(1, 1, 0, True, "Small", False, False)
         w[1] = C(0)
         w[2] = C(field)
-        add_dec("c06_bytes_misc", "crc_lenfield_%d" % field, "Pdu", w + [S, S, S], None)
-    # datagram shorter than its length field says
+        add_dec(D, "pdu_crc_lenfield_%d" % field, "PDU", "()", w + [S, S, S], None)
     w = header(1, 1, 9, False, "Small", False, False) + [C(0x06), S, S]
-    add_dec("c06_bytes_misc", "short_datagram", "Pdu", w, None)
-    # wider identifiers at datagram level
-    for (we, ws) in ((2, 4), (8, 8), (4, 1)):
-        t = [C(0x06), S, S]
-        w, c = dgram("Small", t, t, we=we, ws=ws)
-        add_dec("c06_canon_misc", "ack_e%d_s%d" % (we, ws), "Pdu", w, c)
-    for (we, ws) in ((3, 1), (1, 6), (7, 7)):
-        w = [C(0x20), C(0), C(3), C(((we - 1) << 4) | (ws - 1))] + [S] * (2 * we + ws) + [C(0x06), S, S]
-        add_dec("c06_bytes_misc", "badwidth_e%d_s%d" % (we, ws), "Pdu", w, None)
-    # CRC on: acceptance requires the CRC to match
-    for (nm, p) in (("ack", [C(0x06), S, S]), ("eof_noerr", [C(0x04), C(0x00)] + [S] * 8),
-                    ("prompt", [C(0x09), S])):
-        w, c = dgram("Small", p, p, crc=True)
-        add_dec("c06_canon_misc", "crc_" + nm, "Pdu", w, c)
-    w, c = dgram("Small", [S] * 5, [S] * 5, crc=True, filedata=True)
-    add_dec("c06_canon_misc", "crc_unseg1", "Pdu", w, c)
-    add_trunc("c06_bytes_misc", "crc_trunc_ack", "Small", [C(0x06), S, S], crc=True)
+    add_dec(D, "pdu_short_datagram", "PDU", "()", w, None, tier="thorough")
+    w, _ = dgram("Small", [C(0x06), S, S], None)
+    call = "checks::c06_pdu_trunc(%s, %d, false, b)" % (rs_tpl(w), HL)
+    add(D, "pdu_trunc_ack", len(w), call, unwind_for(len(w)), True, "thorough")
     for c in classes:
         for k in ("c06_canon_", "c06_bytes_"):
             if not any(h["family"] == k + c for h in HARNESSES):
@@ -905,16 +978,17 @@ def emit():
     hs.append("// @generated by /verif/kani/gen.py -- do not edit\n"
               "#![allow(non_snake_case)]\n")
     for h in HARNESSES:
-        stubs = "".join("    #[kani::stub(%s, %s)]\n" % s for s in STUBS)
+        stubs = "".join("#[kani::stub(%s, %s)]\n" % s for s in STUBS)
         hs.append("#[kani::proof]\n#[kani::unwind(%d)]\n%sfn %s() {\n"
                   "    let b: [u8; %d] = kani::any();\n"
                   "    let o = crate::dispatch::call_%s(&b);\n"
                   "    kani::cover!(o.is_pass(), \"check body reached its end\");\n%s}\n"
-                  % (h["unwind"], stubs.replace("    #", "#"), h["name"], h["K"], h["name"],
+                  % (h["unwind"], stubs, h["name"], h["K"], h["name"],
                      "    kani::cover!(o.accepted(), \"a decoder accepted\");\n" if h["accept"] else ""))
     ds.append("// @generated by /verif/kani/gen.py -- do not edit\n"
               "#![allow(non_snake_case, unused_imports, clippy::all)]\n"
-              "use crate::checks::{self, Dec, Fss, Pl, Tlv, Uo};\nuse crate::util::Outcome;\n")
+              "use crate::checks::{self, Fss, Pl, Tlv, Uo};\nuse crate::util::Outcome;\n"
+              "use cfdp_core::daemon::Report;\nuse cfdp_core::pdu::*;\n")
     for h in HARNESSES:
         ds.append("pub fn call_%s(b: &[u8]) -> Outcome {\n    %s\n}\n" % (h["name"], h["call"]))
     ds.append("/// (harness name, number of input octets)\npub const HARNESSES: &[(&str, usize)] = &[")
